@@ -13,6 +13,16 @@ mod c06;
 mod ew;
 mod eprops;
 mod props_ew;
+mod sweep;
+mod c16;
+mod c14;
+mod c04;
+mod c19;
+mod c15;
+mod alloc;
+
+#[global_allocator]
+static GLOBAL: alloc::Checking = alloc::Checking;
 
 use explore::*;
 use report::*;
@@ -21,6 +31,10 @@ use std::sync::atomic::Ordering;
 pub struct PropRun {
     pub level: &'static str,
     pub scenarios: Vec<Scenario>,
+    /// exhaustive sweeps that do not use choice points
+    pub units: Vec<sweep::Unit>,
+    /// re-runs one sweep case (scenario names starting with "case:")
+    pub replay_case: Option<fn(&str) -> Vec<Violation>>,
     pub summary: Summary,
 }
 
@@ -69,6 +83,7 @@ fn run_check(property: &str, tier: &str) -> i32 {
     install_panic_hook();
     start_watchdog(&ex, property.to_string());
     let mut scs = pr.scenarios;
+    let mut summary = pr.summary;
     // VERIF_SEED only permutes the order in which scenarios are visited; enumeration is complete either way
     if seed != 0 && scs.len() > 1 {
         let mut x = seed | 1;
@@ -85,10 +100,8 @@ fn run_check(property: &str, tier: &str) -> i32 {
     }
     println!("[{}] {} scenarios, {} threads, tier {}", property, scs.len(), ctx.threads, tier);
     ex.explore_all(&scs);
-    let mut summary = pr.summary;
-    if property == "C03" {
-        // for C03 a panic inside uflow is the violation
-    }
+    let n_units = pr.units.len();
+    if n_units > 0 { println!("[{}] {} sweep units", property, n_units); sweep::run_units(&ex, pr.units); }
     summary.bounds["scenarios_total"] = serde_json::json!(scs.len());
     finish(&ctx, &ex, summary)
 }
@@ -100,6 +113,19 @@ fn replay(path: &str) -> i32 {
     let scenario = v["scenario"].as_str().unwrap_or("").to_string();
     let choices: Vec<u8> = v["choices"].as_array().map(|a| a.iter().map(|x| x.as_u64().unwrap_or(0) as u8).collect()).unwrap_or_default();
     install_panic_hook();
+    if scenario.starts_with("case:") {
+        let pr = match props::build(&property, "quick") { Some(p) => p, None => return 2 };
+        let f = match pr.replay_case { Some(f) => f, None => { eprintln!("property {} has no case replay", property); return 2; } };
+        let v1 = f(&scenario); let v2 = f(&scenario);
+        if v1.iter().map(|v| v.sig.clone()).collect::<Vec<_>>() != v2.iter().map(|v| v.sig.clone()).collect::<Vec<_>>() { eprintln!("machinery: replay is not deterministic"); return 2; }
+        let known = load_known(&property); let is_known = known_matcher(&known); let mut code = 0;
+        for v in v2.iter() {
+            if is_known(v) { println!("KNOWN-FINDING: property={} sig={}", property, v.sig); } else { println!("VIOLATION property={} replay={}", property, path); code = 1; }
+            println!("    clause={} sig={}", v.clause, v.sig); println!("    {}", v.detail);
+        }
+        if v2.is_empty() { println!("no violation on this tree"); }
+        return code;
+    }
     for tier in ["quick", "thorough"] {
         if let Some(pr) = props::build(&property, tier) {
             if let Some(sc) = pr.scenarios.iter().find(|s| s.name == scenario) {
